@@ -3,16 +3,27 @@
 PROP = dict(
     technique='Lean inductive invariant over the critical-section transition system (covers re-entrant OnDelete trees), refinement to a reference map+recency list, structural nested interpreter; differential tie on op scripts',
     module="GolibsVerif.Theorems.C09", namespace="GolibsVerif.C09",
-    modules=["GolibsVerif.Theorems.C09", "GolibsVerif.Theorems.C09Frames"],
+    modules=["GolibsVerif.Theorems.C09", "GolibsVerif.Theorems.C09Frames", "GolibsVerif.Theorems.C09List"],
     rule="scripts of Set/Get/Del/Clear/Stats calls (small key/value alphabets; Set carries what each of its OnDelete calls does, "
          "re-entrant to depth 3) under combinations of MaxSize, MaxElementSize, MaxCount, EnableLRU, OnDelete nil/set, plus every "
          "script of <= 3 (thorough: 4) calls over a 7-call alphabet; non-trivial = the script causes >= 1 replacement, eviction "
-         "or refusal (class label names which, and whether a callback re-entered the cache); distinct = distinct case line",
-    trusted=["cache/list.go's intrusive list and the unsafe structPtr arithmetic are modelled as a Lean list (oldest first) whose entries "
-             "carry a `linked` flag; memory safety of the pointer code is not exhibited, a nil prev/next dereference is a modelled panic",
+         "or refusal (class label names which, and whether a callback re-entered the cache); distinct = distinct case line; "
+         "plus C09.list scripts of list operations (init, new item, append-at-back, unlink, move-to-back, pop-front, raw listAppend/listLink2, "
+         "nil slots) run on the real cache/list.go functions and on the pointer-level model, next- and prev-traversal compared after every "
+         "op (items named through structPtr), incl. every script of <= 3 (thorough: 5) ops over a 9-op alphabet; classes list-legal / "
+         "list-illegal (a side condition was violated: corrupted but compared) / list-panic (nil dereference, compared)",
+    trusted=["cache/list.go's intrusive list is modelled twice: as a Lean list (oldest first, entries carry a `linked` flag) in Model/C09.lean, "
+             "and at pointer level in Model/C09List.lean (heap of {next, prev} objects, nil = none, the six list functions failing with nilDeref "
+             "exactly where Go dereferences nil, structPtr as wrapping uintptr subtraction); Theorems/C09List.lean PROVES that the pointer level "
+             "refines the list (representation invariant, every legal instruction sequence, every history of the cache model with LRU on), so the "
+             "list abstraction is no longer trusted.  Still trusted there: the pointer-level model is tied to list.go by the C09.list differential "
+             "scripts (sampled); field offsets 48 (item.used) and 8 (cache.usage) are those of the 64-bit gc layout; the Go allocator returns an "
+             "address that is not reachable from the structure; an item's key/value words are not part of the heap model (the list code never "
+             "touches them)",
              "uint arithmetic on Nat: no wrap of size+addSize (sizes are lengths of live slices); size -= ... never underflows by the "
              "proved invariant size = sum of entry sizes; hit/miss int32 counters on Nat",
-             "the verif-tagged hook cache/export_verif.go (VerifSnapshot: usage-list keys oldest first, map keys, size) used by the tie",
+             "the verif-tagged hook cache/export_verif.go (VerifSnapshot: usage-list keys oldest first, map keys, size; VerifList*: the six list "
+             "functions re-exported unchanged, VerifNewItem, VerifItemKey = structPtr as the eviction loop uses it, next/prev readers) used by the ties",
              "sequential use only: critical sections are atomic steps; real goroutine interleavings are C10's subject"],
     level_text="Lean theorems about an executable model of cache.Set/Get/Del/Clear/Stats written critical section by critical section: "
                "an inductive invariant over the transition system 'any critical section may come next' (so for every configuration and "
@@ -25,7 +36,13 @@ PROP = dict(
                "interleave arbitrarily between critical sections): frames_refine_steps (+ inv_reachable_framed, stats_bounded_framed, "
                "get_latest_framed), onDelete_once_framed, evict_then_onDelete_framed, onDelete_after_evict_framed, "
                "evict_only_when_needed_framed, commit_only_when_fits_framed, loop_head_decides, frame_progress, run_is_framed (every runScript "
-               "log is the projection of a framed execution); nothing is _partial. trusted: Lean kernel; the differential correspondence (sampled); "
+               "log is the projection of a framed execution); on the pointer-level list (Model/C09List.lean, Spec/C09List.lean: Repr h s l): "
+               "listInit_repr, newList_repr, append_last_repr, unlink_repr (x.next/x.prev left dangling), first_repr, popFront_repr, "
+               "popFront_empty_returns_sentinel, evict_first_is_item, unlink_unlinked_fails + unlink_nil_field_fails (defect 7 as a nil dereference "
+               "of the pointer code), repr_closed (memory safety of the structure), repr_unique_walk, repr_frame, structPtr_bijection, "
+               "itemOf_sentinel_outside, list_simulation (+ _step, _from: every legal instruction sequence from newCache), list_ops_of_cstep, "
+               "cstep_list_refines, history_list_refines, script_list_refines (every history / script of the cache model with LRU on runs at pointer "
+               "level without failing and the heap represents St.lru), nolru_list_refines, listed_entries; nothing is _partial. trusted: Lean kernel; the differential correspondence (sampled); "
                "list/unsafe code modelled as a list; Nat for uint/int32; callers do not mutate key/value slices after Set",
     assumptions=["callers do not modify the key/value slices handed to Set afterwards (the cache stores them without copying)",
                  "size + len(key) + len(val) does not wrap a uint; fewer than 2^31 Gets between two Clears (int32 counters)",
